@@ -54,6 +54,8 @@ pub struct Profile {
     pub p_main_frame: f64,
     /// a piece of the data segment (label + data) stands between two functions
     pub p_data_island: f64,
+    /// a saved register is set up as frame pointer (the value of sp at entry) and used for address arithmetic
+    pub p_frame_pointer: f64,
     /// layout: `j main` first, then the functions, main last (nothing behind its exit)
     pub p_functions_first: f64,
     /// a function gets an error-exit block behind its epilogue (the exit ecall is then the last
@@ -95,6 +97,7 @@ impl Profile {
             p_sp_excursion: 0.0,
             p_main_frame: 0.3,
             p_data_island: 0.15,
+            p_frame_pointer: 0.2,
             p_functions_first: 0.25,
             p_tail_exit: 0.12,
             p_csr: 0.0,
@@ -139,6 +142,7 @@ impl Profile {
             p_sp_excursion: 0.03,
             p_main_frame: 0.3,
             p_data_island: 0.15,
+            p_frame_pointer: 0.2,
             p_functions_first: 0.25,
             p_tail_exit: 0.12,
             p_csr: 0.03,
@@ -1474,6 +1478,20 @@ impl<'a> G<'a> {
             f.st.defined |= bit(f.acc);
             self.sync(&mut f);
             f.st.pending |= bit(f.acc);
+        }
+        if f.frame > 0 && self.rng.chance(self.prof.p_frame_pointer) {
+            // frame pointer convention: a saved register (saved in the prologue) is given the value sp had at
+            // entry - a copy of *another* register's entry value - and addresses of locals are computed from it
+            if let Some((fp, _)) = f.saved.iter().copied().find(|(s, _)| *s != f.acc) {
+                self.emit(Ins::addi(fp, SP, f.frame));
+                f.st.defined |= bit(fp);
+                if self.rng.chance(0.5) {
+                    let k = 4 * (1 + self.rng.below((f.frame / 4) as usize) as i32);
+                    self.emit(Ins::addi(fp, fp, -k));
+                }
+                self.emit(Ins::Alu { op: AluOp::Add, rd: f.acc, rs1: f.acc, rs2: fp });
+                f.st.pending |= bit(f.acc);
+            }
         }
         if recursive {
             // depth guard: first argument <= 0 returns at once
